@@ -82,30 +82,35 @@ func (r *Router) route(s Sender, p stanza.Packet) {
 }
 
 // SendMissingStz sends all stanzas that did not reach the server, according to the response to an ack request (see XEP-0198, acks)
+// lastSent is the number of stanzas the server reports as handled. The Id of a queued stanza is its sequence number
+// on the session, so every queued stanza with an Id up to lastSent is acknowledged and removed from the queue.
+// The other ones are sent again, in order, and stay in the queue until they are acknowledged.
 func SendMissingStz(lastSent int, s Sender, uaq *stanza.UnAckQueue) error {
 	uaq.RWMutex.Lock()
-	if len(uaq.Uslice) <= 0 {
-		uaq.RWMutex.Unlock()
+	defer uaq.RWMutex.Unlock()
+	// Remove acknowledged stanzas from the queue
+	for len(uaq.Uslice) > 0 && uaq.Uslice[0].Id <= lastSent {
+		uaq.Pop()
+	}
+	if len(uaq.Uslice) == 0 {
 		return nil
 	}
-	last := uaq.Uslice[len(uaq.Uslice)-1]
-	if last.Id > lastSent {
-		// Remove sent stanzas from the queue
-		uaq.PopN(lastSent - last.Id)
-		// Re-send non acknowledged stanzas
-		for _, elt := range uaq.PopN(len(uaq.Uslice)) {
-			eltStz := elt.(*stanza.UnAckedStz)
-			err := s.SendRaw(eltStz.Stz)
-			if err != nil {
-				return err
-			}
-
+	// Re-send non acknowledged stanzas
+	for _, elt := range uaq.Uslice {
+		if err := resendStz(s, elt.Stz); err != nil {
+			return err
 		}
-		// Ask for updates on stanzas we just sent to the entity. Not sure I should leave this. Maybe let users call ack again by themselves ?
-		s.Send(stanza.SMRequest{})
 	}
-	uaq.RWMutex.Unlock()
-	return nil
+	// Ask for updates on stanzas we just sent to the entity. Not sure I should leave this. Maybe let users call ack again by themselves ?
+	return s.Send(stanza.SMRequest{})
+}
+
+// resendStz writes a stanza that is already in the un-acknowledged queue, without storing it a second time.
+func resendStz(s Sender, stz string) error {
+	if c, ok := s.(*Client); ok {
+		return c.sendWithWriter(c.transport, []byte(stz))
+	}
+	return s.SendRaw(stz)
 }
 
 func iqNotImplemented(s Sender, iq *stanza.IQ) {
